@@ -218,7 +218,7 @@ fn router_part(ctx: &Ctx, res: &mut PartResult, states: &mut vseq::States, max_r
     // (radix_trie branches on nibbles: "c", "q", "`" share the high nibble of "a"/"b" and leave the trie below a value-less branch node)
     for (ti, table) in tables.iter().enumerate() {
         if ti % 64 == 0 && ctx.over_budget() {
-            res.cap_hit = Some("wall budget".into());
+            res.cap_hit = Some("budget (cpu time of the part)".into());
             res.exhaustive = false;
             break;
         }
